@@ -38,13 +38,13 @@ ASSUMPTIONS = c01.ASSUMPTIONS + [
 ]
 PROBES = ["variant_hashseed", "variant_cwd", "variant_moved_tree", "variant_symlink_tree", "variant_store_kind",
           "variant_extra_debug", "variant_graph_export", "variant_prehistory>=2", "variant_after_failed_eval",
-          "corpus_program_checked"]
+          "corpus_program_checked", "base_prehistory"]
 PRELOAD = []
 
 
 def _feat(cfg, avoid=()):
     f = gen.swarm_feat(cfg, avoid)
-    f["loads"] = cfg.random() < 0.2
+    f["loads"] = cfg.random() < 0.45
     f["p_load_never"] = 0.0
     return f
 
@@ -88,7 +88,10 @@ def gen_case(streams, tier, avoid):
             var["pre"] = pre
             var["hashseed"] = v.choice([None, None] + HASHSEEDS)
         variants.append(var)
-    return {"prog": prog, "feat": feat, "entry": entry, "variants": variants}
+    # evaluations made before the compared one in EVERY variant (the canonical one included): paths produced by
+    # other entry points are then resolved from the store by the loads of the compared evaluation
+    base = [e for e in ents if e != entry and v.random() < 0.6][:3]
+    return {"prog": prog, "feat": feat, "entry": entry, "variants": variants, "base_pre": base}
 
 
 def _cmds(prog, entry, srcdir, store, root, var):
@@ -106,6 +109,9 @@ def _cmds(prog, entry, srcdir, store, root, var):
              "options": options, "cwd": var.get("cwd")}]
     f = prog["funcs"][entry]
     ename = ir.modname(prog, f["mod"]) + ":" + entry
+    for be in var.get("_base_pre", []):
+        bf = prog["funcs"][be]
+        cmds.append({"cmd": "eval", "entry": ir.modname(prog, bf["mod"]) + ":" + be, "style": "eval", "options": {}})
     for pre in var.get("pre", []):
         pf = prog["funcs"][pre["entry"]]
         pname = ir.modname(prog, pf["mod"]) + ":" + pre["entry"]
@@ -147,6 +153,7 @@ def _run_variant(prog, entry, root, idx, var):
         srcdir = os.path.join(root, f"link{idx}")
         os.symlink(tree, srcdir)
     v = dict(var)
+    v["_base_pre"] = [e for e in (var.get("_base") or []) if e in prog["funcs"]]
     if var.get("kind") == "cwd":
         d = os.path.join(root, f"cwd{idx}")
         os.makedirs(d, exist_ok=True)
@@ -222,7 +229,10 @@ def run_case(case):
         def probe(n):
             probes[n] = probes.get(n, 0) + 1
 
-        canon, env0 = _run_variant(prog, entry, root, 0, {"kind": "canonical"})
+        base = case.get("base_pre", [])
+        if base:
+            probe("base_prehistory")
+        canon, env0 = _run_variant(prog, entry, root, 0, {"kind": "canonical", "_base": base})
         csigs = _sigs_of(canon)
         log.append(["canonical", canon["res"][:2], csigs])
         if canon["res"][0] != "ok":
@@ -230,7 +240,7 @@ def run_case(case):
             return {"violations": [], "log": log, "probes": probes, "nontrivial": False}
         saw_hs = saw_pre = False
         for idx, var in enumerate(case["variants"], start=1):
-            out, env = _run_variant(prog, entry, root, idx, var)
+            out, env = _run_variant(prog, entry, root, idx, dict(var, _base=base))
             sigs = _sigs_of(out)
             k = var["kind"]
             probe({"hashseed": "variant_hashseed", "cwd": "variant_cwd", "moved": "variant_moved_tree",
